@@ -832,6 +832,7 @@ def check_exclusion_mechanisms(p, report, funcs, facts):
         # R1.4m: the dependence goes through an exclusion mechanism
         lvedges, _ = value_edges(L, ff.locs)
         picks = forward_closure(rnames | acc, lvedges) | rnames | acc
+        check_index_discipline(report, f, ff, L, S, acc, picks, back | ops, lvedges)
         # boolean pool masks flipped at the picks count as pick-derived indices
         for n in ast.walk(L):
             if isinstance(n, ast.Assign) and ast.unparse(n.value) in ("True", "False"):
@@ -1033,6 +1034,177 @@ def check_exclusion_mechanisms(p, report, funcs, facts):
                     "selection is not under)" if partial else
                     "earlier picks are not excluded by a mask (NaN/0/False store indexed by the picks) or by shrinking "
                     "the pool; relying on distances/cluster cells alone fails for duplicated points and empty cells"))
+
+
+FRESH_CONSTANT = ("ones_like", "zeros_like", "full_like", "ones", "zeros", "full", "empty", "empty_like")
+
+
+def _fresh_constant_call(v):
+    while isinstance(v, ast.UnaryOp):
+        v = v.operand
+    while isinstance(v, ast.Call) and isinstance(v.func, ast.Attribute) and v.func.attr == "astype":
+        v = v.func.value
+    while isinstance(v, ast.UnaryOp):
+        v = v.operand
+    return isinstance(v, ast.Call) and (callname(v) or "").split(".")[-1] in FRESH_CONSTANT
+
+
+def preallocated_buffers(fnode, L, names):
+    """Pick buffers of fixed length allocated before the loop (`np.full(k, -1)`, `np.empty(k, int)`) and filled
+    one slot per iteration (`buf[i] = pick`): their unfilled slots hold -1 / 0 / garbage, all valid positions."""
+    counters = {n.id for n in ast.walk(L.target) if isinstance(n, ast.Name)} if isinstance(L, ast.For) else set()
+    out = set()
+    for d in ast.walk(fnode):
+        if isinstance(d, ast.Assign) and len(d.targets) == 1 and isinstance(d.targets[0], ast.Name) \
+                and d.targets[0].id in names and d.lineno < L.lineno and _fresh_constant_call(d.value):
+            nm = d.targets[0].id
+            slot = any(isinstance(m, ast.Assign) and isinstance(m.targets[0], ast.Subscript)
+                       and isinstance(m.targets[0].value, ast.Name) and m.targets[0].value.id == nm
+                       and (names_in(m.targets[0].slice) & counters) for m in ast.walk(L))
+            rebound = any(isinstance(m, ast.Assign) and any(isinstance(t, ast.Name) and t.id == nm for t in m.targets)
+                          for m in ast.walk(L))
+            if slot and not rebound:
+                out.add(nm)
+    return out
+
+
+def whole_buffer_index(t, buffers):
+    """the buffer NAME used bare as (a component of) the index of store target t"""
+    comps = []
+    cur = t
+    while isinstance(cur, ast.Subscript):
+        comps += list(cur.slice.elts) if isinstance(cur.slice, ast.Tuple) else [cur.slice]
+        cur = cur.value
+    for c in comps:
+        if isinstance(c, ast.Name) and c.id in buffers:
+            return c.id
+    return None
+
+
+def growing_accumulators(L, names):
+    """names that GROW by the picks inside the loop (append / slot store / self-referential concatenation / mask
+    flip), as opposed to names that are simply rebound to the latest pick"""
+    out = set()
+    for m in ast.walk(L):
+        if isinstance(m, ast.Expr) and isinstance(m.value, ast.Call) and isinstance(m.value.func, ast.Attribute) \
+                and m.value.func.attr in ("append", "extend", "insert", "add", "update"):
+            b = base_name(m.value.func.value)
+            if b in names:
+                out.add(b)
+        elif isinstance(m, ast.Assign):
+            for t in m.targets:
+                if isinstance(t, ast.Subscript) and base_name(t) in names:
+                    out.add(base_name(t))
+                elif isinstance(t, ast.Name) and t.id in names and t.id in names_in(m.value):
+                    out.add(t.id)
+        elif isinstance(m, ast.AugAssign) and base_name(m.target) in names:
+            out.add(base_name(m.target))
+    return out
+
+
+def translated_picks(L, picks, counters, lvedges):
+    """pick-derived names whose value went through a position table (`idx = mapping[pick]`): they live in another
+    index space than the array the selection ran on"""
+    seeds = set()
+    for m in ast.walk(L):
+        if isinstance(m, ast.Assign) and len(m.targets) == 1 and isinstance(m.targets[0], ast.Name) \
+                and isinstance(m.value, ast.Subscript) and isinstance(m.value.value, ast.Name) \
+                and m.value.value.id not in picks and m.value.value.id not in counters \
+                and not isinstance(m.value.slice, (ast.Slice, ast.Tuple)) \
+                and (names_in(m.value.slice) & picks) and not (names_in(m.value.slice) - picks - counters):
+            seeds.add(m.targets[0].id)
+    return (forward_closure(seeds, lvedges) | seeds) if seeds else set()
+
+
+def indexed_by_foreign_table(L, b, picks, counters):
+    """is `b` read in the loop through a position table (`b[mapping]`)?  Then its own index space cannot be told."""
+    for m in ast.walk(L):
+        if isinstance(m, ast.Subscript) and isinstance(m.ctx, ast.Load) and base_name(m) == b:
+            comps = list(m.slice.elts) if isinstance(m.slice, ast.Tuple) else [m.slice]
+            for c in comps:
+                if isinstance(c, ast.Slice):
+                    continue
+                if names_in(c) - picks - counters:
+                    return True
+    return False
+
+
+def check_index_discipline(report, f, ff, L, S, acc, picks, operand_side, lvedges):
+    """Two obligations on HOW the picks index other arrays inside the selection loop.
+    (c) a pre-allocated pick buffer (`np.full(k, -1)`, one slot filled per step) is never used whole as an index: its
+        unfilled slots name valid positions (-1 = the last sample), which would be masked/read as if picked;
+    (d) a mark (NaN/0/False store) on an array of the selection operand's side is indexed in the operand's index
+        space: a pick translated through a position table (`idx = mapping[pick]`) names another sample there."""
+    counters = {n.id for n in ast.walk(L.target) if isinstance(n, ast.Name)} if isinstance(L, ast.For) else set()
+    for buf in sorted(preallocated_buffers(f.node, L, acc)):
+        bad = None
+        uses = 0
+        for m in ast.walk(L):
+            if isinstance(m, ast.Subscript):
+                comps = list(m.slice.elts) if isinstance(m.slice, ast.Tuple) else [m.slice]
+                for c in comps:
+                    if buf in names_in(c):
+                        uses += 1
+                    if isinstance(c, ast.Name) and c.id == buf and bad is None:
+                        bad = m
+        report.add("R1.4m", f.qual, f"pick buffer `{buf}` of loop `{norm_stmt(L, 50)}` is only used by its filled slots "
+                   f"as an index", f"{f.file}:{(bad or L).lineno}", bad is None, nontrivial=uses > 0,
+                   detail=f"{uses} index use(s) inside the loop, each through a slot/slice" if bad is None else
+                   f"`{ast.unparse(bad)[:70]}` is indexed by the whole pre-allocated buffer: its unfilled slots (-1 / 0 / "
+                   f"uninitialised) are valid positions too, so samples never picked are marked or read as picks and the "
+                   f"last steps run out of candidates")
+    translated = translated_picks(L, picks, counters, lvedges)
+    # (e) a branch of the loop that REBINDS an array of the operand's side to a fresh constant (`mass = np.ones(n)` as a
+    #     fallback) forgets every earlier pick: the marks have to be written again right there, for ALL picks (indexed
+    #     by the growing accumulator, not by the latest pick)
+    growing = growing_accumulators(L, acc) - translated
+    tree = FuncTree(f.node)
+    for m in ast.walk(L):
+        if not (isinstance(m, ast.Assign) and len(m.targets) == 1 and isinstance(m.targets[0], ast.Name)
+                and m.targets[0].id in operand_side and _fresh_constant_call(m.value)):
+            continue
+        x = m.targets[0].id
+        blk = tree.block_of.get(m)
+        if blk is None or blk[0] is L:
+            continue   # the per-step initialisation of a working array, not a fallback
+        def _branches(st):
+            return {(id(o), fld) for (_s, o, fld, _i) in tree.ancestors(st) if isinstance(o, ast.If)}
+        mb = _branches(m)
+        if not any(isinstance(d, ast.Assign) and d is not m and any(isinstance(t, ast.Name) and t.id == x for t in d.targets)
+                   and d.lineno < m.lineno
+                   and not any((i_, "orelse" if fl == "body" else "body") in mb for (i_, fl) in _branches(d))
+                   for d in ast.walk(L)):
+            continue   # one of several alternative sources of this step's array, nothing is overwritten
+        owner_, field_, idx_ = blk
+        s_stmt_ = tree.stmt_of(S)
+        later = getattr(owner_, field_)[idx_ + 1:] + [
+            st for st in ast.walk(L) if isinstance(st, ast.Assign) and st.lineno > m.lineno and tree.block_of.get(st) is not None
+            and tree.block_of[st][0] is not owner_ and dominates(tree, st, s_stmt_)]
+        remark = [st for st in later if isinstance(st, ast.Assign) and isinstance(st.targets[0], ast.Subscript)
+                  and base_name(st.targets[0]) == x and ast.unparse(st.value).replace(" ", "") in EXCL_VALUES]
+        full = [st for st in remark if index_names(st.targets[0]) & growing]
+        report.add("R1.4m", f.qual, f"fallback `{norm_stmt(m, 50)}` marks ALL earlier picks again",
+                   f"{f.file}:{m.lineno}", bool(full),
+                   detail=f"`{norm_stmt(full[0], 50)}` indexed by the accumulator of all picks" if full else
+                   (f"`{norm_stmt(remark[0], 50)}` marks only the latest pick (its index is not the accumulator "
+                    f"{sorted(growing)}): the picks before it get positive mass again" if remark else
+                    f"`{x}` feeds the selection and is replaced by a constant array without marking the picks "
+                    f"{sorted(growing)} again"))
+    if translated:
+        marks = []
+        for (n, b, k) in exclusion_statements(L, picks):
+            if k == "M1" and isinstance(n, ast.Assign) and b in operand_side and isinstance(n.value, ast.Constant) is not None \
+                    and ast.unparse(n.value) not in ("True",) and not indexed_by_foreign_table(L, b, picks, counters):
+                marks.append((n, b))
+        for (n, b) in marks:
+            ix = index_names(n.targets[0])
+            bad_ix = (ix & translated) if not (ix & (picks - translated)) else set()
+            report.add("R1.4m", f.qual, f"mark `{norm_stmt(n, 60)}` is indexed in the index space of the selection operand",
+                       f"{f.file}:{n.lineno}", not bad_ix,
+                       detail="indexed by the raw picks" if not bad_ix else
+                       f"`{sorted(bad_ix)[0]}` holds picks translated through a position table (`x = table[pick]`): in the "
+                       f"index space of `{b}` it names other samples, so the real picks keep their mass/number and can be "
+                       f"selected again")
 
 
 def outside_defs(fnode, L):
